@@ -423,7 +423,13 @@ pub(crate) fn resolve<'a>(
             (TypeRef::Named(_), None) => Ok(None),
 
             (TypeRef::NonNull(type_ref), Some(value)) => {
-                resolve(schema, ctx, type_ref, Some(value)).await
+                match resolve(schema, ctx, type_ref, Some(value)).await? {
+                    Some(value) => Ok(Some(value)),
+                    None => Err(ctx.set_error_path(
+                        Error::new("internal: non-null types require a return value")
+                            .into_server_error(ctx.item.pos),
+                    )),
+                }
             }
             (TypeRef::NonNull(_), None) => Err(ctx.set_error_path(
                 Error::new("internal: non-null types require a return value")
@@ -503,6 +509,9 @@ async fn resolve_value(
     value: &FieldValue<'_>,
 ) -> ServerResult<Option<Value>> {
     match (field_type, &value.0) {
+        // `FieldValue::NULL` is the null value of every leaf type, e.g. for list
+        // items; whether null is allowed is decided by the enclosing type.
+        (Type::Scalar(_) | Type::Enum(_), FieldValueInner::Value(Value::Null)) => Ok(None),
         (Type::Scalar(scalar), FieldValueInner::Value(value)) if scalar.validate(value) => {
             Ok(Some(value.clone()))
         }
